@@ -250,6 +250,16 @@ func judge(sc *Scenario, o *Outcome) (wire, residual []Item, tag []byte, probs [
 				add("C10/Serve/nil-without-peer-close", "Serve returned nil although the peer did not close its stream (cause: "+o.cause+")")
 			}
 		}
+		// Serve left its loop at the top, through the test of the input context,
+		// although nothing had happened to the context in force: the deadline in
+		// force had not passed (and nothing but Serve's own shutdown cancels it)
+		if o.cause == "ctx" && o.exitSeen && !o.passedAtExit {
+			add("C10/Serve/returned-without-cause", fmt.Sprintf("Serve returned %s from the context test at the top of its loop although the peer had not closed, no stream error was exchanged and the close deadline in force had not passed (SetCloseDeadline calls: %s)", r, deadlineCalls(sc)))
+		}
+		// every element the peer sent before Serve left its loop was handed to the handler
+		if o.handled != o.elemsRead {
+			add("C10/Serve/elements-not-handled", fmt.Sprintf("Serve read %d elements of the peer but the handler was called for %d", o.elemsRead, o.handled))
+		}
 		// a deadline error only when the deadline in force has passed: a deadline
 		// that a later SetCloseDeadline call has replaced (extended, shortened or
 		// cleared with the zero time) must not end Serve
